@@ -9,7 +9,7 @@ from mc.tsched import Sched, ShimThread, Deadlock, Horizon
 from mc.vloop import World
 
 
-def run(ch, nthreads, ncb):
+def run(ch, nthreads, ncb, floop=False):
     with World() as w:
         sched = Sched(ch)
         sched.register_main("loop")
@@ -29,6 +29,12 @@ def run(ch, nthreads, ncb):
         loop._write_to_self = _write_to_self
 
         def worker(tid):
+            if floop and tid == 0:
+                # this foreign thread is itself inside a running (other) event loop, e.g. asyncio.run() in a thread
+                import asyncio
+                from asyncio import events
+                other = asyncio.BaseEventLoop()
+                events._set_running_loop(other)
             for k in range(ncb):
                 sched.point("before-add_callback")
                 io.add_callback(lambda tid=tid, k=k: log.append((tid, k, sched.cur.name)))
@@ -90,21 +96,21 @@ def judge(nthreads, ncb, o):
     return bad
 
 
-def run_bound(bound, st, nthreads=2, ncb=2):
+def run_bound(bound, st, nthreads=2, ncb=2, floop=False):
     def on_exec(ch, o):
         st.ev()
         st.transitions += len(ch.trace)
-        key = h(("threads", nthreads, ncb, tuple(ch.choices())))
+        key = h(("threads", nthreads, ncb, floop, tuple(ch.choices())))
         st.states.add(key)
         if any(c for c in ch.choices()):
             st.nontrivial.add(key)
         st.outcome(h(tuple((t, k) for t, k, _ in o["log"])))
         for sig, msg in judge(nthreads, ncb, o):
-            st.violation("threads:" + sig, "%d threads x %d callbacks, schedule %r: %s" % (nthreads, ncb, ch.choices(), msg),
-                         {"kind": "threads", "nthreads": nthreads, "ncb": ncb, "choices": ch.choices()})
+            st.violation("threads:" + sig, "%d threads x %d callbacks%s, schedule %r: %s" % (nthreads, ncb, " (thread 0 inside another running event loop)" if floop else "", ch.choices(), msg),
+                         {"kind": "threads", "nthreads": nthreads, "ncb": ncb, "floop": floop, "choices": ch.choices()})
     # exactly `bound` preemptions are explored by the partition (bound b covers everything <= b; partitions overlap
     # on purpose so that each partition is self-contained)
-    n, edges, capped = devex.explore(lambda ch: run(ch, nthreads, ncb), bound=bound, on_exec=on_exec, max_execs=150000)
+    n, edges, capped = devex.explore(lambda ch: run(ch, nthreads, ncb, floop), bound=bound, on_exec=on_exec, max_execs=150000)
     if capped:
         st.note("cap_hit")
     st.setmax("preemption_bound_completed", bound)
@@ -113,5 +119,5 @@ def run_bound(bound, st, nthreads=2, ncb=2):
 
 
 def replay(case):
-    o = run(devex.Chooser(case["choices"]), case["nthreads"], case["ncb"])
+    o = run(devex.Chooser(case["choices"]), case["nthreads"], case["ncb"], case.get("floop", False))
     return "%r\nverdict %r" % (o, judge(case["nthreads"], case["ncb"], o))
